@@ -33,6 +33,16 @@ def npTakeI? {α} (arr : List α) (idx : List Int) : Option (List α) :=
 def natList? (xs : List Int) : Option (List Nat) :=
   Py.listMapM? xs (fun i => if 0 ≤ i then some i.toNat else none)
 
+/-- `np.array(np.meshgrid(xs, ys, zs)).T.reshape(-1, 3)` for three 1-D sequences: the rows `(x, y, z)` in the order numpy
+    produces them — `meshgrid` (default `indexing='xy'`) gives three arrays of shape (len ys, len xs, len zs), `.T` reverses
+    all axes of the stacked (3, ·, ·, ·) array, `reshape(-1, 3)` reads it row-major: z varies slowest, then x, then y -/
+def meshgridT3 {α} (xs ys zs : List α) : List (α × α × α) :=
+  zs.flatMap (fun k => xs.flatMap (fun i => ys.map (fun j => (i, j, k))))
+
+/-- `rows[np.any(rows != 0, axis=1)]` on an (n, 3) array of naturals: the rows with a non-zero entry, in order -/
+def rowsAnyNonzero3 (rows : List (Nat × Nat × Nat)) : List (Nat × Nat × Nat) :=
+  rows.filter (fun m => m.1 != 0 || m.2.1 != 0 || m.2.2 != 0)
+
 end Mofun.Generated.Py6
 
 namespace Mofun.Generated.Code6
@@ -194,5 +204,28 @@ def getitem (positions : List Vec3) (atom_types : List Nat) (charges : List Rat)
   let t3 ← (Py6.npTakeI? charges idx)
   let t4 ← (Py6.npTakeI? groups idx)
   pure (["atom_type_elements", "atom_type_labels", "atom_type_masses", "atom_types", "cell", "charges", "groups", "positions"], (some t1), (some t2), (some t3), (some t4), (some atom_type_masses), (some atom_type_elements), (some atom_type_labels), (some cell))
+
+/-- the default `repldims=(1, 1, 1)` of `replicate` -/
+def replicateMults_default_repldims : Nat × Nat × Nat := (1, 1, 1)
+
+/-- translated from `replicate` in mofun/atoms.py class Atoms (FRAGMENT: the image multipliers in the order of the loop, `np.array(np.meshgrid(*[range(r) for r in repldims])).T.reshape(-1, 3)` with the rows `[0, 0, 0]` removed) -/
+def replicateMults (repldims : Nat × Nat × Nat) : List (Nat × Nat × Nat) :=
+  let ucmults : List (Nat × Nat × Nat) := (Py6.meshgridT3 (List.range repldims.1) (List.range repldims.2.1) (List.range repldims.2.2))
+  let ucmults : List (Nat × Nat × Nat) := (Py6.rowsAnyNonzero3 ucmults)
+  ucmults
+
+/-- the default `repldims=(1, 1, 1)` of `replicate` -/
+def replicateShift_default_repldims : Nat × Nat × Nat := (1, 1, 1)
+
+/-- translated from `replicate` in mofun/atoms.py class Atoms (FRAGMENT: the vector handed to `transatoms.translate` for one multiplier row `ucmult`, `np.matmul(transatoms.cell.T, ucmult)` with `transatoms = self.copy()`) -/
+def replicateShift (cell : Mat3) (ucmult : Nat × Nat × Nat) : Vec3 :=
+  (⟨(((cell.a.x * ((ucmult.1 : Nat) : Rat)) + (cell.b.x * ((ucmult.2.1 : Nat) : Rat))) + (cell.c.x * ((ucmult.2.2 : Nat) : Rat))), (((cell.a.y * ((ucmult.1 : Nat) : Rat)) + (cell.b.y * ((ucmult.2.1 : Nat) : Rat))) + (cell.c.y * ((ucmult.2.2 : Nat) : Rat))), (((cell.a.z * ((ucmult.1 : Nat) : Rat)) + (cell.b.z * ((ucmult.2.1 : Nat) : Rat))) + (cell.c.z * ((ucmult.2.2 : Nat) : Rat)))⟩ : Vec3)
+
+/-- the default `repldims=(1, 1, 1)` of `replicate` -/
+def replicateOffsets_default_repldims : Nat × Nat × Nat := (1, 1, 1)
+
+/-- translated from `replicate` in mofun/atoms.py class Atoms (FRAGMENT: the `offsets=` keyword of the `repl_atoms.extend` call of every image) -/
+def replicateOffsets : Nat × Nat × Nat × Nat × Nat :=
+  (0, 0, 0, 0, 0)
 
 end Mofun.Generated.Code6
